@@ -5,6 +5,7 @@ necessary condition of "a request is never lost": whenever the lowest pending ke
 changed it must return true. Over-notification is harmless, so only *definitely false under a must-wake
 valuation* is reported; shapes the evaluator cannot decide are listed as undecided, not as violations."""
 from engine import query as Q
+from . import common
 from engine.terms import show, subterms
 from engine.guards import Atom, Walker
 
@@ -23,7 +24,7 @@ def root_fn(f):
 
 
 def family(ctx, top, kinds=("coroutine", "closure")):
-    return [g for g in ctx.F.fns if root_fn(g) is top and g.kind in kinds]
+    return common.family(ctx, top, kinds)
 
 
 def has_first_query(t):
